@@ -89,6 +89,47 @@ def find_item(src: str, m: str, spec: str, file: str) -> Item:
         it = Item(spec, "closure", mm.group(3), body, file, line)
         it.closure_params = params
         return it
+    if kind == "arm":
+        # `arm OWNER::FN => PATTERN-PREFIX as NAME`: the body of the match arm of fn OWNER::FN whose pattern starts with the
+        # given text is lifted to a named function (rule R19, match-arm form); signature declared in unit.toml (`sig`),
+        # body text copied verbatim.
+        mm = re.match(r"(.+?)\s*=>\s*(.+?)\s+as\s+(\w+)$", spec[len("arm"):].strip())
+        if not mm:
+            raise LostAnchor("bad arm spec `%s`" % spec)
+        host = find_item(src, m, "fn " + mm.group(1), file)
+        hm = L.mask(host.text)
+        pat = "".join(mm.group(2).split())
+        hit = None
+        for k in re.finditer(r"=>", hm):
+            # pattern text: back to the previous `,` `{` or `}` at the same level
+            j = k.start() - 1
+            depth = 0
+            while j >= 0:
+                c = hm[j]
+                if c in ")]}":
+                    if c == "}" and depth == 0:
+                        break
+                    depth += 1
+                elif c in "([{":
+                    if depth == 0:
+                        break
+                    depth -= 1
+                elif c == "," and depth == 0:
+                    break
+                j -= 1
+            ptxt = "".join(hm[j + 1:k.start()].split())
+            if ptxt.startswith(pat):
+                hit = k
+                break
+        if hit is None:
+            raise LostAnchor("%s: match arm `%s` of %s not found" % (file, mm.group(2), mm.group(1)))
+        b = L.skip_ws(hm, hit.end())
+        if hm[b] != "{":
+            raise LostAnchor("%s: match arm `%s` of %s has no block body" % (file, mm.group(2), mm.group(1)))
+        e = L.match_close(hm, b)
+        body = host.text[b:e + 1]
+        line = host.line + host.text.count("\n", 0, b)
+        return Item(spec, "closure", mm.group(3), body, file, line)
     if kind == "fn":
         trait = None
         owner = None
